@@ -45,6 +45,8 @@ CONSTANTS
   RM,          \* BOOLEAN: rollback mitigation gates deliveries on the persisted seqno of every copy of the vBucket
   Slots,       \* number of copies (active + replicas) listed in the cluster map
   RmUuids,     \* vbUUIDs a copy may report
+  RmMonotone,  \* BOOLEAN: under one vbUUID a copy's persisted seqno never decreases (as on a real cluster; required when the
+               \* real polling rollbackMitigation is driven: two changes seen in one polling round are then order-independent)
   Scrapes,     \* BOOLEAN: the metrics endpoint is scraped
   HookScrapes, \* BOOLEAN: ... also from inside every lifecycle callback of the user's event handler
   Marking,     \* BOOLEAN: record in marks the interesting situations a behaviour goes through (bin/mkwitness)
@@ -488,18 +490,22 @@ Report(v, i, u, q) ==
   /\ UNCHANGED wind
   /\ up /\ RM /\ rmon /\ ~Busy /\ EnvOK /\ i \in 1..Slots /\ ~rtab[v][i].absent /\ cnt.acks + cnt.saves + cnt.notify + cnt.ends < 99
   /\ (rtab[v][i].uuid # u \/ rtab[v][i].seq # q)          \* (an identical answer changes nothing)
+  /\ (RmMonotone => rtab[v][i].uuid # u \/ q >= rtab[v][i].seq)
   /\ rtab' = [rtab EXCEPT ![v][i] = [uuid |-> u, seq |-> q, absent |-> FALSE]]
   /\ LET m == MinSeq(rtab'[v]) IN thr' = [thr EXCEPT ![v] = IF m # 0 /\ m > @ THEN m ELSE @]
   /\ Emit(<<[ev |-> "Report", vb |-> v, slot |-> i, uuid |-> u, seq |-> q]>>)
   /\ UNCHANGED <<envVars, obsvVars, strVars, synVars, mpc, dcwc, opener, opc, opened, live, foleft, lpart, clo, spc, sv, rpc, dpc, reop, dwait, rmon, scr, sinfo>>
 
-\* the cluster map stops listing copy i of v (markAbsentInstances)
+\* the cluster map stops listing copy i of v: configWatch -> reconfigure (l.278-302): the table is reset, the unlisted copies
+\* are marked absent (markAbsentInstances) and the next observe round fills the table again from what the listed copies
+\* answer - here: the table keeps the entries of the listed copies and the new minimum is dispatched
 Absent(v, i) ==
   /\ UNCHANGED wind
   /\ up /\ RM /\ rmon /\ ~Busy /\ EnvOK /\ i \in 2..Slots /\ ~rtab[v][i].absent
   /\ rtab' = [rtab EXCEPT ![v][i].absent = TRUE]
+  /\ LET m == MinSeq(rtab'[v]) IN thr' = [thr EXCEPT ![v] = IF m # 0 /\ m > @ THEN m ELSE @]
   /\ Emit(<<[ev |-> "Absent", vb |-> v, slot |-> i]>>)
-  /\ UNCHANGED <<envVars, obsvVars, strVars, synVars, mpc, dcwc, opener, opc, opened, live, foleft, lpart, clo, spc, sv, rpc, dpc, reop, thr, dwait, rmon, scr, sinfo>>
+  /\ UNCHANGED <<envVars, obsvVars, strVars, synVars, mpc, dcwc, opener, opc, opened, live, foleft, lpart, clo, spc, sv, rpc, dpc, reop, dwait, rmon, scr, sinfo>>
 
 \* the harness switches the gate on once the stream is open and off before it asks for Close (see DESIGN: on rig A the
 \* real rollbackMitigation object cannot be built; the observers' gate, getMinSeqNo and SetPersistSeqNo are real)
